@@ -45,5 +45,7 @@ func checkC02(c *Ctx) {
 	c.dedupInsert()
 	c.terminalTables()
 	c.queueIndexRules()
+	c.growRules()
+	c.occupancyByCount()
 	c.retentionFresh("sessions", "AckMsg", map[string]string{"OnComplete": "the completion callback is meant to be retained"})
 }
